@@ -33,6 +33,18 @@ TOL = 1e-10
 SHIFT = 0.37        # a non-zero pop_control_ene_shift for the e^{dt E_shift} clause
 
 
+PER_SITE = 2
+
+
+def report(chk: Check, site, what, replay=None):
+    """at most PER_SITE violations per site go to the framework (it keeps only the first 20 replay files and
+    every site's first violation must have one); all of them are counted in the evidence"""
+    cnt = chk.extra.setdefault("violations_per_site", {})
+    cnt[site] = cnt.get(site, 0) + 1
+    if cnt[site] <= PER_SITE:
+        chk.violation(site, what, replay)
+
+
 # ============================================================================ 1. design-level model checking
 def design(chk: Check):
     # every walker with entries in -1..1 (n = 2, one electron per spin) x 4 trials x 2 half steps x 2 HS pairs:
@@ -166,12 +178,12 @@ def bind_trial_formulas(chk: Check, I, R):
     chk.case(("green", I["id"]))
     chk.traces += 1
     if e > TOL:
-        chk.violation(f"{kind}_cpmc.calc_full_green", f"{kind}_cpmc.calc_full_green differs from the exact Green's "
+        report(chk, f"{kind}_cpmc.calc_full_green", f"{kind}_cpmc.calc_full_green differs from the exact Green's "
                       f"function by {e:.3e} (n={n}, nelec={I['nu'], I['nd']})", case)
     got = np.asarray(trial.calc_green_diagonal(wu, wdn, wd))
     e = relerr(got, np.array([np.diag(G)[:n], np.diag(G)[n:]]))
     if e > TOL:
-        chk.violation(f"{kind}_cpmc.calc_green_diagonal", f"{kind}_cpmc.calc_green_diagonal differs from the exact "
+        report(chk, f"{kind}_cpmc.calc_green_diagonal", f"{kind}_cpmc.calc_green_diagonal differs from the exact "
                       f"diagonal by {e:.3e}", case)
     if not R["pairs"]:
         return
@@ -209,14 +221,14 @@ def bind_trial_formulas(chk: Check, I, R):
         e = abs(got_r[t] - ratios[t]) / max(1.0, abs(ratios[t]))
         pc = {"instance": I["json"], "P": P, "Q": Q, "constants": I["json"]["cset"][k]}
         if not (e <= TOL):
-            chk.violation(f"{kind}_cpmc.calc_overlap_ratio:{cls}",
+            report(chk, f"{kind}_cpmc.calc_overlap_ratio:{cls}",
                           f"{kind}_cpmc.calc_overlap_ratio for spin-orbitals ({P},{Q}) [{cls}], constants "
                           f"{consts[t]}: got {got_r[t]!r}, exact {ratios[t]!r}", pc)
         if refs[t] is None:
             continue
         e = relerr(got_g[t], code_green(I, refs[t])) * min(1.0, abs(ratios[t]))
         if not (e <= TOL):
-            chk.violation(f"{kind}_cpmc.update_greens_function:{cls}",
+            report(chk, f"{kind}_cpmc.update_greens_function:{cls}",
                           f"{kind}_cpmc.update_greens_function for spin-orbitals ({P},{Q}) [{cls}], constants "
                           f"{consts[t]}: updated Green's function differs from the from-scratch one of the updated "
                           f"walker by {e:.3e} (exact overlap ratio {ratios[t]:.6g})", pc)
@@ -271,7 +283,7 @@ def bind_step(chk: Check, I, R):
     # the library's own HS constants are the pair (p, q) of the model: hs_constant = [[p, q], [q, p]]
     e = relerr(np.asarray(pd0["hs_constant"]), np.array([[p, q], [q, p]]))
     if e > TOL:
-        chk.violation("propagator_cpmc.init_prop_data:hs_constant",
+        report(chk, "propagator_cpmc.init_prop_data:hs_constant",
                       f"hs_constant for dt*U = {DT * U:.6g} is {np.asarray(pd0['hs_constant']).tolist()}, expected "
                       f"[[{p},{q}],[{q},{p}]] (p+q=2, pq=e^(-dt U))", case)
     pd0["hs_constant"] = jnp.array([[p, q], [q, p]])
@@ -312,7 +324,7 @@ def bind_step(chk: Check, I, R):
                     chk.case(("dead", I["id"], tuple(rec["path"]), pname, shift), nontrivial=False)
                     chk.traces += 1
                     if shift == 0.0 and not (o_w[row] == 0.0):
-                        chk.violation(f"constrained:{pname}.propagate:both-fields-rejected",
+                        report(chk, f"constrained:{pname}.propagate:both-fields-rejected",
                                       f"{pname} ({kind} trial): both auxiliary-field values are rejected at site "
                                       f"{rec['site']} after fields {rec['path']}; the walker must die (weight 0) but "
                                       f"the weight is {o_w[row]!r}",
@@ -336,7 +348,7 @@ def bind_step(chk: Check, I, R):
                 bad = {k: v for k, v in errs.items() if not (v <= TOL)}
                 if bad:
                     pre = "" if free else "constrained:"
-                    chk.violation(f"{pre}{pname}.propagate:{kind}:leaf",
+                    report(chk, f"{pre}{pname}.propagate:{kind}:leaf",
                                   f"{pname} ({kind} trial, n={n}, nelec=({nu},{nd})) driven down field path "
                                   f"{rec['path']}: {sorted(bad)} differ from the exact step "
                                   f"(relative errors {bad}); exact weight {ex_w!r}, got {o_w[row]!r}",
@@ -352,7 +364,7 @@ def bind_step(chk: Check, I, R):
                 chk.case(("leafsum", I["id"], pname, shift))
                 chk.traces += 1
                 if not (e <= TOL):
-                    chk.violation(f"{pname}.propagate:{kind}:leaf-sum",
+                    report(chk, f"{pname}.propagate:{kind}:leaf-sum",
                                   f"{pname} ({kind} trial): sum over all {L} field paths of P*w*|W>/o differs from "
                                   f"M^ prod_i exp(-dt U n_up n_dn) M^ |W>/o * e^(dt E_shift) by {e:.3e} "
                                   f"(E_shift={shift})", dict(case, shift=shift))
@@ -380,7 +392,7 @@ def exact_part(chk: Check, insts=None, name="file"):
             if s is not None and not s[k]:
                 raise MachineryError(f"instance {I['id']}: model theorem {k} fails")
         if s is not None and not s["adj_ok"]:
-            chk.violation(f"lattice-adjacency:{I['lat']['kind']}",
+            report(chk, f"lattice-adjacency:{I['lat']['kind']}",
                           f"create_adjacency_matrix of {I['lat']} is not the nearest-neighbour graph of the model",
                           {"lattice": I["lat"], "adj": I["adj"].tolist()})
         bind_trial_formulas(chk, I, R)
@@ -518,7 +530,7 @@ def fast_slow_part(chk: Check, cases=None):
         if not verdict[key]:
             pre = "constrained:" if cls == "constrained" else ""
             extra = f":u_1={'0' if not c.get('u1') else 'positive'}" if c["mode"] == "nn" else ""
-            chk.violation(f"{pre}{fn}:fast-vs-slow:{c['kind']}{extra}",
+            report(chk, f"{pre}{fn}:fast-vs-slow:{c['kind']}{extra}",
                           f"{fn} vs {sn} ({c['kind']} trial, {c['lat']} n={c['n']} nelec={c['nelec']} U={c['U']}"
                           f"{' u_1=' + str(c['u1']) if c['mode'] == 'nn' else ''}, seed {c['seed']}): {comp} of "
                           f"{cnt} {'unconstrained' if cls == 'free' else 'dead/constrained'} walkers differ by "
@@ -567,7 +579,7 @@ def exp_h1_part(chk: Check, cases=None):
         chk.case(("exp_h1", c["lat"], c["n"], tuple(c["nelec"]), c["kind"], c["nonuniform"], c["U"], c["dt"]))
         chk.traces += 1
         if not verdict[key]:
-            chk.violation(f"propagator_cpmc._build_propagation_intermediates:exp_h1:{key[1]}-density",
+            report(chk, f"propagator_cpmc._build_propagation_intermediates:exp_h1:{key[1]}-density",
                           f"exp_h1 for the {c['lat']} lattice (n={c['n']}, U={c['U']}, dt={c['dt']}, {c['kind']} trial "
                           f"with {key[1]} density {np.round(dens, 4).tolist()}) differs from expm(-dt K/2), "
                           f"K = -t*adjacency, by {resid:.3e}: the inherited propagator_unrestricted."
